@@ -156,3 +156,45 @@ Proof.
   - exfalso. destruct (enrich_keeps_ordinary ty m0 [] Hty eq_refl) as (m' & tags' & Hen & _). congruence.
 Qed.
 Print Assumptions data_of_plain_body.
+
+(* ---------- the derived fields follow fixed rules ---------- *)
+Lemma kv_get_del_same k m : kv_get k (kv_del k m) = None.
+Proof. induction m as [|[k' v] m IH]; cbn; auto. destruct (beq k k') eqn:E; auto. cbn. rewrite E. exact IH. Qed.
+
+(* success= / res= becomes result=success|fail and disappears *)
+Theorem result_rule m o v : kv_get (L "success") m = Some (o, v) ->
+  let good := isS (map lower v) "yes" || isS (map lower v) "1" || has_prefix (L "suc") (map lower v) in
+  kv_get (L "result") (do_result m) = Some (newf (if good then L "success" else L "fail")) /\ kv_get (L "success") (do_result m) = None.
+Proof.
+  intros H good. unfold do_result. rewrite H. fold good. destruct good.
+  - split. apply kv_get_add_same. rewrite kv_get_add_other by (intros C; discriminate C). apply kv_get_del_same.
+  - split. apply kv_get_add_same. rewrite kv_get_add_other by (intros C; discriminate C). apply kv_get_del_same.
+Qed.
+Theorem result_rule_res m o v : kv_get (L "success") m = None -> kv_get (L "res") m = Some (o, v) ->
+  let good := isS (map lower v) "yes" || isS (map lower v) "1" || has_prefix (L "suc") (map lower v) in
+  kv_get (L "result") (do_result m) = Some (newf (if good then L "success" else L "fail")) /\ kv_get (L "res") (do_result m) = None.
+Proof.
+  intros H0 H good. unfold do_result. rewrite H0, H. fold good. destruct good.
+  - split. apply kv_get_add_same. rewrite kv_get_add_other by (intros C; discriminate C). apply kv_get_del_same.
+  - split. apply kv_get_add_same. rewrite kv_get_add_other by (intros C; discriminate C). apply kv_get_del_same.
+Qed.
+
+(* an unset auid / ses (4294967295 or -1) becomes "unset"; any other value stays *)
+Theorem unset_rule k m o v : kv_get (L k) m = Some (o, v) ->
+  kv_get (L k) (normalize_unset k m) = Some (o, if isS v "4294967295" || isS v "-1" then L "unset" else v).
+Proof.
+  intros H. unfold normalize_unset. rewrite H. destruct (isS v "4294967295" || isS v "-1"); auto.
+  unfold kv_setval. rewrite H. apply kv_get_add_same.
+Qed.
+
+(* a negative exit code with a name in the errno table becomes that name; everything else stays *)
+Theorem exit_rule m o v code : kv_get (L "exit") m = Some (o, v) -> atoi v = Some code ->
+  kv_get (L "exit") (do_exit m) =
+    Some (o, if (code <? 0)%Z then match lookup_tab (- code)%Z Errno.errno_to_name with Some n => S2 n | None => v end else v).
+Proof.
+  intros H Ha. unfold do_exit. rewrite H, Ha. destruct (code <? 0)%Z; auto. destruct (lookup_tab (- code)%Z Errno.errno_to_name); auto.
+  unfold kv_setval. rewrite H. apply kv_get_add_same.
+Qed.
+Print Assumptions result_rule.
+Print Assumptions unset_rule.
+Print Assumptions exit_rule.
